@@ -52,3 +52,29 @@ def guard(col, fn, *args, **kw):
     except Exception:  # noqa
         col.inconclusive.append('case crashed in harness: ' + traceback.format_exc()[-1200:])
         col.count('harness_case_crashes')
+
+
+class HarnessTimeout(BaseException):
+    """raised by time_limit in the worker's main thread (BaseException: library code catching Exception cannot eat it)"""
+
+
+class time_limit:
+    """wall-clock budget for one block of harness work (SIGALRM; main thread only).  Its firing is never a verdict."""
+
+    def __init__(self, seconds):
+        self.seconds = seconds
+
+    def __enter__(self):
+        import signal
+
+        def handler(signum, frame):
+            raise HarnessTimeout()
+        self._old = signal.signal(signal.SIGALRM, handler)
+        signal.setitimer(signal.ITIMER_REAL, self.seconds)
+        return self
+
+    def __exit__(self, *exc):
+        import signal
+        signal.setitimer(signal.ITIMER_REAL, 0)
+        signal.signal(signal.SIGALRM, self._old)
+        return False
